@@ -53,7 +53,8 @@ def handleCompile (st : St) (op : String) (j : Json) : Option (D (St × Json)) :
       let base := [("parse", Json.str "ok"), ("dfa", eDfa d.bfs), ("dfaRaw", eDfa d),
         ("dead", Json.bool (d.hasDeadEnd (fun a => gen.getD a false))), ("reSame", Json.bool reSame)]
       let extra := match oe with
-        | none => [("ast", Json.null), ("nfa", Json.null)]
-        | some e => [("ast", eExpr e), ("nfa", eNfa (nfa e))]
+        | none => [("ast", Json.null), ("nfa", Json.null), ("nullFrom", Json.null)]
+        | some e => [("ast", eExpr e), ("nfa", eNfa (nfa e)), ("wf", Json.bool e.wf),
+            ("nullFrom", Json.arr ((List.range (nfa e).size).map (fun n => eNats (nullFrom (nfa e) n))).toArray)]
       return (st, ok (Json.mkObj (base ++ extra)))
   | _ => none
